@@ -238,7 +238,7 @@ def extract(units, hdr=".*", inst="", overlays=(), extra_args=None, jobs=None, n
 class Fn:
     """One function body with its CFG."""
     __slots__ = ("d", "name", "id", "file", "line", "cls", "kind", "blocks", "entry", "exit",
-                 "_preds", "_dom", "_pdom", "_reach", "_infeas")
+                 "_preds", "_dom", "_pdom", "_reach", "_infeas", "P")
 
     def __init__(self, d):
         self.d = d
@@ -256,6 +256,7 @@ class Fn:
         self._pdom = None
         self._reach = None
         self._infeas = None
+        self.P = None           # owning Program (set by Program), used to lift predicates through wrappers
 
     def __repr__(self):
         return "<Fn %s %s:%d>" % (self.id, self.file, self.line)
@@ -312,13 +313,42 @@ class Fn:
             yield b, i, e
 
     # -- path queries at event granularity ---------------------------------
-    def path_exists(self, start, goal, avoid, kill_on_throw=True, avoid_blocks=(), avoid_edges=()):
+    def path_exists(self, start, goal, avoid, kill_on_throw=True, avoid_blocks=(), avoid_edges=(), lift=2):
         """Is there a CFG path from just after `start` (block, idx) -- or from
         function entry if start is None -- to an event satisfying `goal`
         (a predicate) or, if goal == 'exit', to the normal function exit,
         without passing an event satisfying `avoid`?  Returns the list of
         block ids of such a path or None.  Throw events and noreturn blocks
-        end a path (they never reach a normal exit)."""
+        end a path (they never reach a normal exit).
+
+        `avoid` is LIFTED through wrappers: a call of a non-virtual function whose
+        body is known and which, on every path to its normal exit, passes an event
+        satisfying `avoid` (itself lifted, to depth `lift`) counts as satisfying
+        it -- so that extracting the required calls into a helper does not change
+        a must-pass-through verdict."""
+        if lift and avoid is not None and getattr(self, "P", None) is not None:
+            base_avoid, P, memo = avoid, self.P, {}
+
+            def must(fid, d):
+                if (fid, d) in memo:
+                    return memo[(fid, d)]
+                memo[(fid, d)] = False      # recursion guard
+                gs = [g for g in P.by_id.get(fid, []) if g.blocks]
+                ok = bool(gs)
+                for g in gs:
+                    if g is self or g.path_exists(None, "exit", lambda q, d=d: lifted(q, d - 1), lift=0) is not None:
+                        ok = False
+                        break
+                memo[(fid, d)] = ok
+                return ok
+
+            def lifted(q, d=lift):
+                if base_avoid(q):
+                    return True
+                if d > 0 and q.get("k") == "call" and q.get("fid") and not q.get("virt"):
+                    return must(q["fid"], d)
+                return False
+            avoid = lifted
         if start is None:
             b0, i0 = self.entry, 0
         else:
@@ -478,6 +508,7 @@ class Program:
                 if k in self.fns:
                     continue
                 fn = Fn(d)
+                fn.P = self
                 self.fns[k] = fn
                 self.by_id.setdefault(fn.id, []).append(fn)
                 self.by_name.setdefault(fn.name, []).append(fn)
